@@ -169,11 +169,11 @@ fn f9_family(out: &mut Vec<Case>, rng: &mut Rng) {
 
 /// every kind × every route × cancel before / after the first poll, with an unrelated neighbour that must survive
 fn kinds_family(out: &mut Vec<Case>, rng: &mut Rng, caps: &[u32]) {
-    let kinds: [(&'static str, usize); 4] = [("rd", 1), ("acc", 4), ("zc", 6), ("blk", 0)];
+    let kinds: [(&'static str, usize); 4] = [("rd", 1), ("acc", 4), ("zc", 7), ("blk", 0)];
     for drv in DRIVERS {
         for &cap in caps {
             for (kind, slot) in kinds {
-                if kind == "acc" && drv == "iour" && cap < 4 {
+                if (kind == "acc" || kind == "zc") && drv == "iour" && cap < 4 {
                     continue;
                 }
                 for route in ROUTES {
@@ -214,16 +214,17 @@ fn generate(tier: &str, rng: &mut Rng) -> Vec<Case> {
         locality_family(&mut out, rng, &[1024], 3);
     }
     let w = Weights { push: 10, ready: 7, poll: 9, flush: 1, pop: 7, popm: 1, cancel: 7, ccancel: 4, dropk: 1, token: 6, tcancel: 8, gate: 2, pdrop: 1 };
-    let n = if thorough { 30_000 } else { 800 };
+    let n = if thorough { 20_000 } else { 800 };
     for i in 0..n {
         let drv = *rng.pick(&DRIVERS);
         let cap = *rng.pick(&CAPS);
-        let small = drv == "iour" && cap < 4;
+        // multishot accepts / zero-copy sends only where no `push_raw` overflow drain can race with their CQEs (c01.rs)
+        let multi_ok = drv == "poll" || cap == 1024;
         let kinds: &[&'static str] = match rng.below(3) {
             0 => &["rd"],
-            1 if small => &["rd", "rd", "blk"],
+            1 if !multi_ok => &["rd", "rd", "blk"],
             1 => &["rd", "rd", "acc", "blk"],
-            _ if small => &["rd", "zc", "blk"],
+            _ if !multi_ok => &["rd", "blk"],
             _ => &["rd", "acc", "zc", "blk"],
         };
         let max_lines = if rng.chance(1, 3) { 24 } else { 14 };
